@@ -244,7 +244,7 @@ func checkC09(c *Ctx) {
 						}
 						if s, ok := x.(*ssa.Send); ok {
 							nSend++
-							cs := m.Sym.Of(s.Chan)
+							cs := m.Sym.Of(m.traceValue(s.Chan))
 							if cs.Op == "makechan" && len(cs.Args) == 1 {
 								if n, ok := cs.Args[0].ConstInt(); ok && n >= 1 {
 									bufOK = true
@@ -366,6 +366,7 @@ func checkC09(c *Ctx) {
 		for _, l := range m.AllGuards(op.Call, false) {
 			s := l.S.String()
 			switch {
+			case l.Derived:
 			case strings.Contains(s, "DeleteKey"):
 			case m.isClaimValueSym(l.S), m.prevClaimLit(l, true):
 			case strings.Contains(s, "select "):
